@@ -36,6 +36,17 @@ pub fn allocs() -> u64 {
     ALLOCS.load(Ordering::Relaxed)
 }
 
+thread_local! {
+    static WINDOW: std::cell::Cell<u64> = const { std::cell::Cell::new(0) };
+}
+/// allocator calls made inside region pushes (catalogue::mpush) since the last `window_take`
+pub fn window_add(n: u64) {
+    WINDOW.with(|w| w.set(w.get() + n));
+}
+pub fn window_take() -> u64 {
+    WINDOW.with(|w| w.replace(0))
+}
+
 fn caps_of(s: &dyn SlotT) -> Vec<usize> {
     s.heap().map(|h| h.iter().map(|p| p.1).collect()).unwrap_or_default()
 }
@@ -69,7 +80,9 @@ impl<'a, W: Write> Run<'a, W> {
     /// its argument inside the closure)
     fn push(&mut self, slots: &mut [Box<dyn SlotT>], s: usize, v: &Value) -> bool {
         let form = self.any_form.take().unwrap_or(self.form);
-        let measured = form == self.form;
+        // every form is measured: the count is taken around the region's push itself (catalogue::mpush), not
+        // around the harness closure that builds the argument
+        let measured = true;
         let cb = caps_of(&*slots[s]);
         let r = {
             let sl = &mut slots[s];
@@ -204,7 +217,8 @@ pub fn cmd_run(seed: u64, runs_per_subject: usize, growth_log2: u32, out: &str) 
             for _ in 0..n {
                 let v = gen_value(shape, &mut rng, false);
                 let cb = caps_of(&*slots[0]);
-                let form = r.form;
+                // any input form: none may build a temporary inside the region's push
+                let form = if rng.gen_bool(0.5) { r.form } else { rng.gen_range(0..subj.forms.len()) };
                 let res = {
                     let sl = &mut slots[0];
                     guarded(|| sl.push_measured(form, &v))
@@ -288,9 +302,39 @@ pub fn cmd_run(seed: u64, runs_per_subject: usize, growth_log2: u32, out: &str) 
                     Err(_) => continue,
                 }
                 writeln!(w, "{}", json!({"ev": "merge", "d": 3, "srcs": [1, 2], "run": run})).unwrap();
-                for v in &contents {
-                    if !step(&mut w, run, &mut stacks, 2, &[v.clone()], false, true) {
-                        break;
+                if rng.gen_bool(0.5) {
+                    for v in &contents {
+                        if !step(&mut w, run, &mut stacks, 2, &[v.clone()], false, true) {
+                            break;
+                        }
+                    }
+                } else {
+                    // the announced contents through `extend`, a few items per call: the items of a call are listed
+                    // one by one, the capacities observed around the call go with the last of them
+                    let mut k = 0;
+                    while k < contents.len() {
+                        let n = rng.gen_range(1..=(contents.len() - k).min(7));
+                        let batch: Vec<Value> = contents[k..k + n].to_vec();
+                        k += n;
+                        let cb = scaps(&*stacks[2]);
+                        let res = {
+                            let sl = &mut stacks[2];
+                            guarded(|| sl.extend_measured(&batch))
+                        };
+                        match res {
+                            Ok(a) => {
+                                let ca = scaps(&*stacks[2]);
+                                for (j, v) in batch.iter().enumerate() {
+                                    let last = j + 1 == batch.len();
+                                    writeln!(w, "{}", json!({"ev": "push", "s": 3, "v": v, "cb": cb, "ca": if last { ca.clone() } else { cb.clone() },
+                                        "allocs": if last { a } else { 0 }, "panic": false, "measured": true, "form": "extend", "run": run})).unwrap();
+                                }
+                            }
+                            Err(m) => {
+                                writeln!(w, "{}", json!({"ev": "push", "s": 3, "v": batch[0], "cb": cb, "ca": cb, "allocs": 0, "panic": true, "msg": m, "measured": true, "form": "extend", "run": run})).unwrap();
+                                break;
+                            }
+                        }
                     }
                 }
                 for _ in 0..rng.gen_range(0..3) {
